@@ -15,7 +15,7 @@
                                       bootstrap connection) *)
 From AV Require Import Base.Util Model.Framing Proofs.BrokerClientInv.
 From AV Require Model.BrokerClient.
-From AV Require Import Model.ClientReq Proofs.ClientReqClosed Proofs.ClientReqC20 Proofs.ClientReqC20b Proofs.ClientReqC20c.
+From AV Require Import Model.ClientReq Proofs.ClientReqClosed Proofs.ClientReqC20 Proofs.ClientReqC20b Proofs.ClientReqC20c Proofs.ClientReqC20d.
 
 (* New work after close() is refused, in ANY state with the closed flag set: a request to a known broker raises ClientError
    and changes nothing ... *)
@@ -61,6 +61,25 @@ Theorem C20_closed_means : forall C, ClosedInv C ->
                                                   /\ BrokerClient.t_reqs (BrokerClient.s_t (b_st b)) = []).
 Proof. exact closed_resolved. Qed.
 Print Assumptions C20_closed_means.
+
+(* FAILS, not merely ends.  The outputs of the close() step itself: every request to a known broker that was unresolved
+   when close() was called - whatever its state: queued, written, connecting - fails in that step with ClientError ... *)
+Theorem C20_pending_requests_fail : forall g evs cl C' o i b h q d,
+  c_clients (fst (run (init g) evs)) = Some cl -> step (fst (run (init g) evs)) EClose = (C', o) ->
+  nth_error (c_bcs (fst (run (init g) evs))) i = Some b -> nth_error (b_reqs b) h = Some q -> q_owner q = Direct d ->
+  ~ In h (BrokerClient.t_fired (BrokerClient.s_t (b_st b))) -> In (OReq d RClosed) o.
+Proof. exact c20_pending_requests_fail. Qed.
+Print Assumptions C20_pending_requests_fail.
+
+(* ... and every broker-agnostic operation in progress is told in that step that it has ended, with ClientError,
+   KafkaUnavailableError or CancelledError - or with the None of finding F-C20-2 (load_metadata_for_topics; exactly when:
+   C20_pending_fail_refuted and the Examples); never with a response. *)
+Theorem C20_pending_operations_end : forall g evs cl C' o p,
+  c_clients (fst (run (init g) evs)) = Some cl -> step (fst (run (init g) evs)) EClose = (C', o) ->
+  phase_of (fst (run (init g) evs)) p <> PDone ->
+  exists r, In (OOp p r) o /\ (r = RClosed \/ r = RUnavail \/ r = RKCancelled \/ r = ROpNone).
+Proof. exact c20_pending_operations_end. Qed.
+Print Assumptions C20_pending_operations_end.
 
 (* Closed for ever.  From a closed state, whatever happens afterwards (late replies, connection losses, timers, connects
    that complete late, API calls): the state stays closed and no connection is attempted, nothing is written to any
